@@ -158,6 +158,9 @@ def run(ctx) -> None:
              "STRICTLY before the stage the run starts from: a placeholder that is not RUNNING is skipped by the graph when further "
              "iterations are instantiated, so freezing the placeholder of a loop that still iterates leaves 'latest' and 'represents' at the "
              "instance of the restart")
+    ctx.rule("C05.R11-per-loop-state-is-keyed-by-the-loop", "a table that instantiate_dowhile_next_iteration keeps on the graph between calls is "
+             "keyed by every field of the DoWhile document that the function's own labels use to name the loop (stage AND name): component names are "
+             "unique within a stage only")
     ctx.rule("C05.R10-iteration-numbers-are-whole", "a regular expression of graph.py / flowir.py that matches the '<iteration>#' prefix of an instance name "
              "repeats the digit class without an upper bound (decided on the parsed pattern); the tree recognises instances with '#' "
              "membership and split('#', 1), which need no pattern")
@@ -438,6 +441,50 @@ def run(ctx) -> None:
     ctx.ob("C05.R4-no-stage-offset-drift", nxt, ok, "when asked, the new iteration is persisted before returning" if ok else
            "instantiate_dowhile_next_iteration can return without persisting the new iteration when store_flowir_to_disk is set",
            construct="if store_flowir_to_disk: store_unreplicated_flowir_to_disk()")
+
+    # ---------------- R11: state kept between calls is keyed by the identity of the loop ---------------------------------
+    # "instance i>0 takes its other inputs from the original bindings" of ITS loop: whatever the function remembers on the graph object
+    # (self.<table>[key] = ...) serves the later iterations of the loop named by the key.  The function itself names a loop with labels
+    # built from fields of the document ('stage%s.%s' % (stage, name)); a key that uses fewer of those fields lets two loops whose
+    # importing components have the same name in different stages share one entry - the second loop is wired to the first loop's inputs
+    dw_param = nxt.args.args[1].arg if len(nxt.args.args) > 1 else None
+    ctx.require(dw_param is not None, "anchor missing: the DoWhile document parameter of instantiate_dowhile_next_iteration")
+
+    def doc_fields(e: ast.AST, depth: int = 0) -> Set[str]:
+        out: Set[str] = set()
+        for x in ast.walk(e):
+            if isinstance(x, ast.Subscript) and isinstance(x.value, ast.Name) and x.value.id == dw_param and isinstance(x.slice, ast.Constant):
+                out.add(str(x.slice.value))
+            elif isinstance(x, ast.Call) and last_attr(x) == "get" and isinstance(x.func.value, ast.Name) and x.func.value.id == dw_param \
+                    and x.args and isinstance(x.args[0], ast.Constant):
+                out.add(str(x.args[0].value))
+            elif isinstance(x, ast.Name) and x.id != dw_param and depth < 3:
+                for v in match.assigned_value(nxt, x.id):
+                    if v is not e:
+                        out |= doc_fields(v, depth + 1)
+        return out
+    identity: Set[str] = set()
+    for x in source.walk_own(nxt):
+        if (isinstance(x, ast.BinOp) and isinstance(x.op, ast.Mod) and isinstance(x.left, ast.Constant) and isinstance(x.left.value, str)) or isinstance(x, ast.JoinedStr):
+            st_ = source.stmt_of(x)
+            if isinstance(st_, ast.Assign):
+                identity |= doc_fields(x)
+    tables = [(st_, t) for st_ in source.walk_own(nxt) if isinstance(st_, ast.Assign) for t in st_.targets
+              if isinstance(t, ast.Subscript) and isinstance(t.value, ast.Attribute) and isinstance(t.value.value, ast.Name) and t.value.value.id == "self"]
+    for (st_, t) in tables:
+        kf = doc_fields(t.slice)
+        if not kf:
+            continue            # not keyed by the document at all (e.g. keyed by a component reference): another rule's business
+        ok = identity <= kf
+        ctx.ob("C05.R11-per-loop-state-is-keyed-by-the-loop", st_, ok,
+               "self.%s is keyed by %s, the fields the function names a loop with" % (t.value.attr, sorted(kf)) if ok else
+               "instantiate_dowhile_next_iteration keeps self.%s between calls under a key made of the document's %s only, while it names a loop by %s: "
+               "two DoWhile imports called alike in different stages (stage1.refine, stage2.refine) share one entry, so every iteration i>0 of the "
+               "loop unrolled second takes its non-loop-carried inputs from the FIRST loop's original bindings (stage2.1#add0 reads stage0.seedA:ref "
+               "instead of stage0.seedB:ref) - silently, the other loop's producers exist" % (t.value.attr, sorted(kf), sorted(identity)),
+               construct="instantiate_dowhile_next_iteration: self.%s keyed by the loop's identity" % t.value.attr)
+    ctx.ob("C05.R11-per-loop-state-is-keyed-by-the-loop", nxt, True, "%d tables kept on the graph by instantiate_dowhile_next_iteration inspected; loop identity fields %s"
+           % (len(tables), sorted(identity)), construct="tables kept by instantiate_dowhile_next_iteration", trivial=True)
 
     # ---------------- R5 -------------------------------------------------------------------------------
     rar = fl.func("rewrite_all_references")
